@@ -1,4 +1,6 @@
 """C06 - decoding is a pure function of the syndrome."""
+import json
+
 import numpy as np
 from hypothesis import strategies as st
 
@@ -76,32 +78,88 @@ def same_arrays(a, b):
                for x, y in zip(a, b))
 
 
-def eval_case(case):
-    fails = []
+class Stepper:
+    """One decoder object driven through a history, checked after every step
+    against the model (fresh decoder per syndrome) and the snapshots."""
 
-    def fail(rel, detail):
-        if len(fails) < 5:
-            fails.append({'relation': rel, 'detail': detail})
+    def __init__(self, case):
+        self.case = case
+        self.name = case['decoder']
+        self.code, self.em, self.dec = decoding.build(case)
+        self.n = self.code.n
+        self.p = case['error_rate']
+        self.H = gf2.to_dense(self.code.stabilizer_matrix)
+        self.zrows = (self.H[:, self.n:].sum(axis=1) > 0)
+        self.tag = f"{self.name}{case.get('dparams')} on {case['code'].get('cls', 'scrambled')}" \
+                   f"{case['code'].get('size', '')} {case['code'].get('deformation')}"
+        self.deterministic = self.name in decoding.DETERMINISTIC
+        self.memo = {}
+        self.tabs0, self.w0 = snapshot_noise(self.em, self.code, self.p)
+        self.seq = []
+        self.distinct_nonzero = set()
+        self.fails = []
 
-    name = case['decoder']
-    code, em, dec = decoding.build(case)
-    n = code.n
-    p = case['error_rate']
-    H = gf2.to_dense(code.stabilizer_matrix)
-    zrows = (H[:, n:].sum(axis=1) > 0)
-    tag = f"{name}{case.get('dparams')} on {case['code'].get('cls', 'scrambled')}" \
-          f"{case['code'].get('size', '')} {case['code'].get('deformation')}"
-    deterministic = name in decoding.DETERMINISTIC
-    memo = {}
-    tabs0, w0 = snapshot_noise(em, code, p)
+    def fail(self, rel, detail):
+        if len(self.fails) < 5:
+            self.fails.append({'relation': rel, 'detail': detail, 'sig': {'decoder': self.name}})
 
-    def fresh_result(s):
+    def fresh_result(self, s):
         key = s.tobytes()
-        if key not in memo:
-            d2 = decoding.make_decoder(case, code, em)
-            memo[key] = np.asarray(d2.decode(s.copy())).copy()
-        return memo[key]
+        if key not in self.memo:
+            d2 = decoding.make_decoder(self.case, self.code, self.em)
+            self.memo[key] = np.asarray(d2.decode(s.copy())).copy()
+        return self.memo[key]
 
+    def step(self, s):
+        """Decode syndrome s on the reused object; returns False on failure."""
+        j = len(self.seq)
+        n, tag = self.n, self.tag
+        self.seq.append(s)
+        arg = s.copy()
+        before = arg.copy()
+        c = np.asarray(self.dec.decode(arg))
+        if arg.dtype != before.dtype or not np.array_equal(arg, before):
+            self.fail('syndrome_not_modified',
+                      f'{tag}: decode #{j} changed the caller\'s syndrome array on '
+                      f'entries {np.nonzero(arg != before)[0].tolist()[:8]}')
+            return False
+        if self.deterministic:
+            want = self.fresh_result(s)
+            if c.shape != want.shape or not np.array_equal(c, want):
+                self.fail('same_as_fresh_decoder',
+                          f'{tag}: decode #{j} of syndrome {np.nonzero(s)[0].tolist()} '
+                          f'after history {[np.nonzero(x)[0].tolist() for x in self.seq[max(0, j - 3):j]]} '
+                          f'returned {np.nonzero(c)[0].tolist()}, a fresh decoder returns '
+                          f'{np.nonzero(want)[0].tolist()}')
+                return False
+        else:
+            if c.shape != (2 * n,) or not set(np.unique(c).tolist()) <= {0, 1}:
+                self.fail('valid_after_history', f'{tag}: decode #{j} format')
+                return False
+            cx = c.copy()
+            cx[n:] = 0
+            if self.name in ('SweepMatchDecoder', 'RotatedSweepMatchDecoder') and \
+                    not np.array_equal(decoding.own_syndrome(self.H, cx)[self.zrows],
+                                       (s.astype(np.int64) % 2)[self.zrows]):
+                self.fail('valid_after_history', f'{tag}: decode #{j}: matching sector '
+                          f'does not reproduce the vertex syndrome')
+                return False
+        if s.any():
+            self.distinct_nonzero.add(s.tobytes())
+        tabs1, w1 = snapshot_noise(self.em, self.code, self.p)
+        if not same_arrays(self.tabs0, tabs1):
+            self.fail('cached_tables_unaltered', f'{tag}: probability_distribution tables '
+                      f'changed after decode #{j}')
+            return False
+        if not same_arrays(self.w0, w1):
+            self.fail('weights_unaltered', f'{tag}: get_weights changed after decode #{j}')
+            return False
+        return True
+
+
+def eval_case(case):
+    st_ = Stepper(case)
+    code, n = st_.code, st_.n
     if case['history'] == 'all_pairs':
         from checks.c04_success_iff_stabilizer import all_errors
         synd = {}
@@ -120,53 +178,78 @@ def eval_case(case):
             s = make_syndrome(code, desc, None, prev)
             seq.append(s)
             prev = s
-    distinct_nonzero = set()
-    for j, s in enumerate(seq):
-        arg = s.copy()
-        before = arg.copy()
-        c = np.asarray(dec.decode(arg))
-        if arg.dtype != before.dtype or not np.array_equal(arg, before):
-            fail('syndrome_not_modified',
-                 f'{tag}: decode #{j} changed the caller\'s syndrome array on '
-                 f'entries {np.nonzero(arg != before)[0].tolist()[:8]}')
+    for s in seq:
+        if not st_.step(s):
             break
-        if deterministic:
-            want = fresh_result(s)
-            if c.shape != want.shape or not np.array_equal(c, want):
-                fail('same_as_fresh_decoder',
-                     f'{tag}: decode #{j} of syndrome {np.nonzero(s)[0].tolist()} '
-                     f'after history {[np.nonzero(x)[0].tolist() for x in seq[max(0, j - 3):j]]} '
-                     f'returned {np.nonzero(c)[0].tolist()}, a fresh decoder returns '
-                     f'{np.nonzero(want)[0].tolist()}')
-                break
-        else:
-            if c.shape != (2 * n,) or not set(np.unique(c).tolist()) <= {0, 1}:
-                fail('valid_after_history', f'{tag}: decode #{j} format')
-                break
-            cx = c.copy()
-            cx[n:] = 0
-            if name in ('SweepMatchDecoder', 'RotatedSweepMatchDecoder') and \
-                    not np.array_equal(decoding.own_syndrome(H, cx)[zrows],
-                                       (s.astype(np.int64) % 2)[zrows]):
-                fail('valid_after_history', f'{tag}: decode #{j}: matching sector '
-                     f'does not reproduce the vertex syndrome')
-                break
-        if s.any():
-            distinct_nonzero.add(s.tobytes())
-        tabs1, w1 = snapshot_noise(em, code, p)
-        if not same_arrays(tabs0, tabs1):
-            fail('cached_tables_unaltered', f'{tag}: probability_distribution tables '
-                 f'changed after decode #{j}')
-            break
-        if not same_arrays(w0, w1):
-            fail('weights_unaltered', f'{tag}: get_weights changed after decode #{j}')
-            break
-    for f in fails:
-        f['sig'] = {'decoder': name}
-    labels = [name, 'all_pairs' if case['history'] == 'all_pairs' else 'history',
+    labels = [st_.name, 'all_pairs' if case['history'] == 'all_pairs' else 'history',
               f'len>={min(len(seq) // 10 * 10, 40)}']
-    return {'fails': fails, 'nontrivial': len(distinct_nonzero) >= 2,
+    if case.get('from_machine'):
+        labels.append('state-machine')
+    return {'fails': st_.fails, 'nontrivial': len(st_.distinct_nonzero) >= 2,
             'labels': labels, 'evals': len(seq)}
+
+
+def machine_shard(seed, n_examples, steps):
+    """Hypothesis stateful engine as a second generator of histories: one
+    rule (decode a drawn syndrome) and an invariant; the operation list is
+    recorded so that a failure is re-evaluated through eval_case and becomes
+    an ordinary JSON replay file."""
+    import hypothesis
+    from hypothesis import settings, HealthCheck
+    from hypothesis.stateful import (RuleBasedStateMachine, rule, initialize, invariant,
+                                     run_state_machine_as_test)
+    results = []
+    failing = {}
+
+    class PurityMachine(RuleBasedStateMachine):
+        def __init__(self):
+            super().__init__()
+            self.st = None
+            self.ops = []
+
+        @initialize(base=history_cases(max_len=2))
+        def setup(self, base):
+            base = json.loads(json.dumps(base))
+            base['history'] = []
+            base['from_machine'] = True
+            self.base = base
+            self.st = Stepper(base)
+            self.prev = None
+
+        @rule(desc=syndrome_desc())
+        def decode(self, desc):
+            if self.st is None or self.st.fails:
+                return
+            s = make_syndrome(self.st.code, desc, None, self.prev)
+            self.prev = s
+            self.ops.append(desc)
+            self.st.step(s)
+
+        @invariant()
+        def pure(self):
+            if self.st is not None and self.st.fails:
+                failing['case'] = dict(self.base, history=list(self.ops))
+                raise AssertionError(self.st.fails[0]['relation'])
+
+        def teardown(self):
+            if self.st is not None and not self.st.fails and self.ops:
+                results.append((dict(self.base, history=list(self.ops)),
+                                {'fails': [], 'nontrivial': len(self.st.distinct_nonzero) >= 2,
+                                 'labels': [self.st.name, 'state-machine'],
+                                 'evals': len(self.ops)}))
+
+    machine = hypothesis.seed(seed)(PurityMachine)
+    try:
+        run_state_machine_as_test(machine, settings=settings(
+            max_examples=n_examples, stateful_step_count=steps, database=None, deadline=None,
+            report_multiple_bugs=False, suppress_health_check=list(HealthCheck)))
+    except AssertionError:
+        pass
+    if 'case' in failing:
+        case = json.loads(json.dumps(failing['case']))
+        from vf import runner
+        results.append((case, runner.safe_eval(eval_case, case)))
+    return results
 
 
 def case_sig(case):
@@ -241,3 +324,9 @@ def run(ctx):
     ctx.run_cases(pair_cases(), chunk=1)
     ctx.run_hypothesis('history_cases', 640 if quick else 40000,
                        max_len=25 if quick else 40)
+    # second generator: Hypothesis' stateful engine (rule-based machine)
+    import hashlib
+    base = int(hashlib.sha256(f'C06:machine:{ctx.seed}'.encode()).hexdigest()[:6], 16)
+    ctx.run_calls('machine_shard', [
+        {'seed': base + i, 'n_examples': 6 if quick else 150, 'steps': 20 if quick else 40}
+        for i in range(16)])
